@@ -1,5 +1,5 @@
 ENGINES = [
-    dict(name="pyvc", path="pyvc/", serves_properties=["C17", "C14", "C02", "C01", "C10", "C11"],
+    dict(name="pyvc", path="pyvc/", serves_properties=["C17", "C14", "C02", "C01", "C10", "C11", "C16", "C19"],
          kind_free_text="E1: AST -> verification-condition generator / symbolic executor over the real source text of /repo, sidecar contracts, z3 (cvc5 fall-back)"),
     dict(name="tabinv", path="tabinv/", serves_properties=["C01", "C10", "C11"],
          kind_free_text="E2: exact-arithmetic ground obligations on the coefficient tables dumped from the imported classes"),
@@ -53,4 +53,19 @@ CHECKS["C11"] = dict(level="proof", engine="tabinv+pyvc",
     note="maximum principle (A8) cited; 2^-40 rounding allowance on the imaginary axis; nonlinear solve external (A6): native agreement with R(z) is a bounded clause",
     technique="exact polynomial root counting (Sturm, Routh-Hurwitz) on tables dumped from the imported classes + symbolic execution of the stage system",
     design_ref="DESIGN.md section 4 C11")
+CHECKS["C16"] = dict(level="proof", engine="pyvc",
+    text="The Jacobian dispatch of DiffRHS is verified as a state machine: jac() and every mutator (hook, unhook, `jac =` through __setattr__, set_jac_base_order, __copy__) are executed symbolically from every "
+         "abstract state satisfying the invariant Inv_J and re-establish it, so every call sequence is covered; jac returns the user's function value when one is attached and otherwise a finite-difference wrapper whose "
+         "closure evaluates rhs at the time of this call (proved by executing the real closure), counted by nfev; njev increments once. JacobianWrapper.estimate is executed on an affine map with a symbolic stencil "
+         "(moment conditions checked on the real weights): exact, entry [i, j] = d f_i / d y_j; check_converged against its specification.",
+    note="finite-difference accuracy on nonlinear maps is only a bounded native clause (labelled); JacobianWrapper(f)(y) abstracted to 'derivative of its closure'; A1, A2, A3, A5",
+    technique="state-machine invariant by symbolic execution from every abstract state + exact polynomial identity for the affine case",
+    design_ref="DESIGN.md section 4 C16")
+CHECKS["C19"] = dict(level="proof", engine="pyvc",
+    text="OdeSystem.__getitem__ (integer, time without dense output, time with dense output, slice) and __len__ are verified against the representation invariant of the recorded grid for every grid length, index and "
+         "query time: sequence semantics incl. IndexError, nearest recorded sample for any grid order, pairing of t_i with y_i, whole-run slices; iteration is the lemma over the int contract. "
+         "Slices of backward trajectories are a recorded known finding (F21b).",
+    note="numpy IndexError/argmin/broadcast semantics axiomatised (A3); states modelled as one real per step; Rep invariant is integrate()'s post-condition (C03/C12); A1, A2",
+    technique="contracts on the real method, VCs with arrays/quantifiers discharged by z3; callee search_bisection by its C17 contract",
+    design_ref="DESIGN.md section 4 C19")
 NOT_APPLICABLE = {}
